@@ -18,12 +18,18 @@ TOL = 1e-8
 
 def _vec(rng, n=None):
     n = n or rng.randint(3, 25)
-    kind = rng.choice(["int", "halves", "offset", "ties", "wide", "symmetric"])
+    kind = rng.choice(["int", "halves", "offset", "ties", "wide", "symmetric", "small", "large"])
     if kind == "symmetric":
         # dyadic values v, -v (and sometimes a zero): the mean is exactly zero, also in floating point
         h = [Fraction(rng.randint(1, 40), 4) for _ in range(max(1, n // 2))]
         v = h + [-x for x in h] + ([Fraction(0)] if rng.random() < 0.5 else [])
         rng.shuffle(v)
+    elif kind == "small":
+        # the same kind of data in another unit (millimetres given in metres): a spread of 0.01 or 0.001
+        unit = rng.choice([10 ** 5, 10 ** 6, 2 ** 17])
+        v = [Fraction(rng.randint(0, 1000), unit) for _ in range(n)]
+    elif kind == "large":
+        v = [Fraction(rng.randint(-1000, 1000) * 1000) for _ in range(n)]
     elif kind == "int":
         v = [Fraction(rng.randint(-20, 20)) for _ in range(n)]
     elif kind == "halves":
@@ -249,7 +255,11 @@ def _poly_tol(c):
     import numpy as np
     x = np.array([float(Fraction(v)) for v in c["xs"]])
     try:
-        cond = float(np.linalg.cond(np.vander(x - x.mean(), int(c["degree"]) + 1)))
+        xc = x - x.mean()
+        # in the unit in which the spread is 1: the recurrence of the implementation is invariant under a change
+        # of unit, so is its rounding error (the raw Vandermonde matrix of data with a small spread is not)
+        xc = xc / (np.abs(xc).max() or 1.0)
+        cond = float(np.linalg.cond(np.vander(xc, int(c["degree"]) + 1)))
     except Exception:  # noqa
         return TOL
     if not np.isfinite(cond):
@@ -428,7 +438,7 @@ def oracle(c):
             return None  # fewer distinct points than the degree needs: undefined
         if A.shape != (n, d):
             return f"{c}: poly returns shape {A.shape}"
-        xc = (xs - xs.mean()) / (1 + np.abs(xs - xs.mean()).max())
+        xc = (xs - xs.mean()) / (np.abs(xs - xs.mean()).max() or 1.0)   # the unit of x does not matter
         cond = np.linalg.cond(np.column_stack([xc ** k for k in range(0, d + 1)]))
         if cond > 1e6:
             return None  # ill-conditioned: floating point, not the contract
